@@ -139,3 +139,40 @@ def nested_positions():
                 break
     IncludepostCommand_helper[0] = b""
     return out
+
+
+_MODE = [0]
+
+
+def scribble(x):
+    """what a caller may do with ITS OWN objects — those it handed to the library, those the library handed to it: a list loses
+    its first item, or its last, or gets another one, or is emptied (in turn); every dict gets a new key, every bytearray is zeroed"""
+    if isinstance(x, list):
+        for y in x:
+            scribble(y)
+        _MODE[0] += 1
+        m = _MODE[0] % 4
+        if m == 0:
+            del x[:]
+        elif m == 1 and x:
+            del x[0]
+        elif m == 2 and x:
+            del x[-1]
+        else:
+            x.append(x[0] if x and _MODE[0] % 8 == 3 else 'scribbled", "by the caller')
+    elif isinstance(x, tuple):
+        for y in x:
+            scribble(y)
+    elif isinstance(x, dict):
+        for y in list(x.values()):
+            scribble(y)
+        x["scribbled"] = "by the caller"
+    elif isinstance(x, bytearray):
+        x[:] = b"\0" * len(x)
+
+
+def listify(x):
+    """the same definition with every tuple turned into a list (definitions read from JSON arrive like that)"""
+    if isinstance(x, (tuple, list)):
+        return [listify(y) for y in x]
+    return x
